@@ -822,6 +822,52 @@ func (GCX) Execute(t *testing.T, sc *core.Scenario) *core.Result {
 			}
 		}
 	}
+	// and the unfinished operations are finished or undone: what they need (pre-merge roots, source and
+	// onto commits, the plan, the stashed roots) has to be there after the collection
+	if !res.Violated() {
+		use := func(what, branch string, qs ...string) {
+			us, err := w.NewSession(ctx, true)
+			if err != nil {
+				return
+			}
+			defer us.End()
+			if _, err := us.Exec(ctx, "CALL dolt_checkout('"+branch+"')"); err != nil {
+				res.Probe("use_after_gc_checkout_refused:" + what)
+				return
+			}
+			for _, q := range qs {
+				if _, err := us.Exec(ctx, q); err != nil {
+					msg := strings.ToLower(firstLine(err))
+					if strings.Contains(msg, "not found") || strings.Contains(msg, "missing") || strings.Contains(msg, "dangling") || strings.Contains(msg, "empty chunk") || strings.Contains(msg, "panic") {
+						res.Violate("state-kept-by-a-working-set-lost-by-gc", "what="+what, 0, "after the collection, %s on branch %s: %s", q, branch, firstLine(err))
+					} else {
+						res.Probe("use_after_gc_refused:" + what)
+					}
+					return
+				}
+			}
+			res.Probe("used_after_gc:" + what)
+		}
+		if has["conflicted-merge"] {
+			use("merge-abort", "left", "CALL dolt_merge('--abort')", "SELECT COUNT(*) FROM t")
+		}
+		if has["conflicted-cherry-pick"] {
+			use("cherry-pick-abort", "cp", "CALL dolt_cherry_pick('--abort')", "SELECT COUNT(*) FROM t")
+		}
+		if has["conflicted-revert"] {
+			use("revert-resolve", "rv", "CALL dolt_conflicts_resolve('--ours', 't')", "CALL dolt_commit('-Am', 'revert resolved after gc')")
+		}
+		if has["rebase-in-progress"] {
+			use("rebase-continue", "dolt_rebase_rb", "CALL dolt_rebase('--continue')", "SELECT COUNT(*) FROM t")
+		}
+		if has["stash"] {
+			br := "main"
+			if has["branch"] {
+				br = "b1"
+			}
+			use("stash-pop", br, "CALL dolt_stash('pop', 'st1')", "SELECT COUNT(*) FROM t")
+		}
+	}
 	res.Ops = s.Switches + b.NWriters*b.Iters
 	res.LogHash = s.Hash()
 	if phaseYields > 0 && s.Switches > 0 && gcRuns > gcErrs {
